@@ -133,6 +133,11 @@ api! {
     intsec: "intsec" => fn(H, H) -> H;
     diff: "diff" => fn(H, H) -> H;
     make_node: "make_node" => fn(H, H, H) -> H;
+    // variable names
+    num_named_vars: "manager_num_named_vars" => fn(Mgr) -> u32;
+    set_var_name: "manager_set_var_name" => fn(Mgr, u32, *const std::ffi::c_char, usize) -> u32;
+    name_to_var: "manager_name_to_var" => fn(Mgr, *const std::ffi::c_char, usize) -> u32;
+    var_name: "manager_var_name" => fn(Mgr, u32, *mut usize) -> *mut std::ffi::c_char;
     // DDDMP through C (settings, names and error pointers may be NULL)
     export_dddmp: "manager_export_dddmp" => fn(Mgr, *const std::ffi::c_char, usize, *const H, usize, *const *const std::ffi::c_char, *const c_void, *mut c_void) -> bool;
     import_dddmp: "manager_import_dddmp" => fn(Mgr, *mut c_void, *const u32, *mut H, *mut c_void) -> bool;
@@ -163,6 +168,9 @@ pub enum FOp {
     PickCubeDd(u16),
     PickCubeDdSet(u16, u16, u16),
     ContainingManager(u16),
+    /// variable names through C: set_var_name(var, name) / name_to_var / var_name / num_named_vars
+    /// against a Vec<String> model (the name alphabet includes "", a duplicate and non-ASCII)
+    Name(u16, u8),
     /// export up to two owned functions with oxidd_*_manager_export_dddmp, open the file with
     /// oxidd_dddmp_open and import it into the same manager
     DddmpRoundTrip(u16, u16, bool),
@@ -189,6 +197,8 @@ pub struct FStat {
     pub invalid_calls: u64,
     #[serde(default)]
     pub dddmp_roundtrips: u64,
+    #[serde(default)]
+    pub name_ops: u64,
     pub gc_checks: u64,
     pub retained_operand_results: u64,
 }
@@ -237,6 +247,8 @@ pub fn run_case(kind: BKind, c: &FCase) -> Result<FStat, String> {
         let ext = |t: &TT, n2: u32| if kind == BKind::Zbdd { t.extend_zero(n2) } else { t.extend_dc(n2) };
         // ledger of owned handles with their model tables
         let mut pool: Vec<(H, TT)> = vec![];
+        // model of the variable names
+        let mut names: Vec<String> = vec![];
         let table_of = |h: H, n: u32| -> Result<TT, String> {
             let ev = f!(eval);
             let mut t = TT::zero(n);
@@ -656,6 +668,64 @@ pub fn run_case(kind: BKind, c: &FCase) -> Result<FStat, String> {
                     }
                     own!(r, got, what);
                 }
+                FOp::Name(v, k) => {
+                    if n == 0 {
+                        continue;
+                    }
+                    const NAMES: [&str; 6] = ["", "a", "b", "c", "x1", "\u{e4}\u{3b2}"];
+                    if names.len() < n as usize {
+                        names.resize(n as usize, String::new());
+                    }
+                    let var = sel(*v, n as usize) as u32;
+                    let name = NAMES[*k as usize % NAMES.len()];
+                    let r = f!(set_var_name)(mgr, var, if name.is_empty() && k & 64 != 0 { std::ptr::null() } else { name.as_ptr().cast() }, name.len());
+                    st.checks += 1;
+                    let other = if name.is_empty() { None } else { names.iter().position(|x| x == name).filter(|p| *p as u32 != var) };
+                    match other {
+                        Some(p) => {
+                            if r != p as u32 {
+                                return Err(format!("names: {what}: set_var_name({var}, {name:?}) = {r}, the name is used by variable {p}"));
+                            }
+                        }
+                        None => {
+                            if r != u32::MAX {
+                                return Err(format!("names: {what}: set_var_name({var}, {name:?}) = {r}, expected success (-1)"));
+                            }
+                            names[var as usize] = name.to_string();
+                        }
+                    }
+                    // read everything back
+                    for (i, nm) in names.iter().enumerate() {
+                        let mut len = usize::MAX;
+                        let p = f!(var_name)(mgr, i as u32, &mut len);
+                        let got = if p.is_null() { None } else { Some(String::from_utf8_lossy(std::slice::from_raw_parts(p.cast::<u8>(), len)).to_string()) };
+                        if !p.is_null() {
+                            libc::free(p.cast());
+                        }
+                        let ok = match (&got, nm.is_empty()) {
+                            (None, true) => true,
+                            (Some(g), true) => g.is_empty(),
+                            (Some(g), false) => g == nm,
+                            (None, false) => false,
+                        };
+                        if !ok || (got.is_some() && len != got.as_ref().unwrap().len()) {
+                            return Err(format!("names: {what}: var_name({i}) = {got:?} (len {len}), model {nm:?}"));
+                        }
+                    }
+                    for cand in NAMES {
+                        let r = f!(name_to_var)(mgr, cand.as_ptr().cast(), cand.len());
+                        let exp = if cand.is_empty() { u32::MAX } else { names.iter().position(|x| x == cand).map(|p| p as u32).unwrap_or(u32::MAX) };
+                        if r != exp {
+                            return Err(format!("names: {what}: name_to_var({cand:?}) = {r}, model {exp}"));
+                        }
+                    }
+                    let nn = f!(num_named_vars)(mgr);
+                    let exp = names.iter().filter(|x| !x.is_empty()).count() as u32;
+                    if nn != exp {
+                        return Err(format!("names: {what}: num_named_vars = {nn}, model {exp}"));
+                    }
+                    st.name_ops += 1;
+                }
                 FOp::DddmpRoundTrip(a, b, two) => {
                     let Some((ha, ta)) = get(*a, &pool) else { continue };
                     let mut fs = vec![(ha, ta)];
@@ -846,6 +916,7 @@ fn fop_strategy() -> impl Strategy<Value = FOp> {
         2 => (s(), s(), s()).prop_map(|(a, p, n)| FOp::PickCubeDdSet(a, p, n)),
         1 => s().prop_map(FOp::ContainingManager),
         2 => (s(), s(), any::<bool>()).prop_map(|(a, b, two)| FOp::DddmpRoundTrip(a, b, two)),
+        3 => (s(), any::<u8>()).prop_map(|(v, k)| FOp::Name(v, k)),
         3 => s().prop_map(FOp::ZSingleton),
         1 => Just(FOp::ZBase),
         4 => (any::<u8>(), s(), s()).prop_map(|(w, a, v)| FOp::ZSub(w, a, v)),
@@ -905,7 +976,7 @@ fn campaign(kname: &'static str, seed: u64, cases: u32, rep: &mut Report) {
                         samples.push(json!({"kind": kname, "case": c}));
                     }
                 }
-                for (k, v) in [("new_handles", s.new_handles), ("invalid_calls", s.invalid_calls), ("gc_balance_checks", s.gc_checks), ("dddmp_roundtrips_through_c", s.dddmp_roundtrips)] {
+                for (k, v) in [("new_handles", s.new_handles), ("invalid_calls", s.invalid_calls), ("gc_balance_checks", s.gc_checks), ("dddmp_roundtrips_through_c", s.dddmp_roundtrips), ("name_operations_through_c", s.name_ops)] {
                     *agg.entry(format!("{kname}.{k}")).or_insert(0) += v;
                 }
             }
@@ -991,7 +1062,7 @@ pub fn run(cfg: &Cfg) -> i32 {
         &total,
         Meta {
             level: "exploration",
-            rule: "proptest call sequences (10..70 calls) over the exported oxidd_{bdd,bcdd,zbdd}_* symbols of the freshly built liboxidd_ffi_c.so (loaded with dlopen, prototypes declared by hand): manager_new/ref/unref, add_vars, set_var_order, var/level maps, gc, constants, var/not_var, all connectives, ite, restrict, quantifiers and apply-quantify, substitution objects (new/add_pair/substitute twice/free), cofactors, ref/unref, node_count/level/var, satisfiable/valid, sat_count_double, pick_cube(+assignment_free)/pick_cube_dd/pick_cube_dd_set, eval, containing_manager, DDDMP round trips through C (manager_export_dddmp with NULL settings/names/error -> oxidd_dddmp_open/num_roots/num_vars -> manager_import_dddmp into the same manager: the imported handles must be the exported ones and are owned by the caller), ZBDD singleton/base/empty/subset0/subset1/change/union/intsec/diff/make_node (which consumes hi and lo - also when var, hi or lo is the invalid handle), and calls with the invalid handle at every operand position. Oracle: the harness keeps a ledger of the handles it owns with their truth tables (model = what the Rust API yields by C02-C04/C09): every returned handle must evaluate (oxidd_*_eval on all assignments) to the model table and have the reference node count; an invalid operand must give an invalid result; after every gc the manager must hold exactly the inner nodes of the shared reduced diagram of the owned tables (a leaked reference shows up as a surplus, an over-release as a deficit or crash); at the end every owned handle is unref'ed once and the manager must be back at its baseline. Each sequence runs in a forked child (a segfault/abort is a verdict). Non-trivial = sequence with a result whose operands stay owned, at least one invalid-handle call and at least one gc balance check.",
+            rule: "proptest call sequences (10..70 calls) over the exported oxidd_{bdd,bcdd,zbdd}_* symbols of the freshly built liboxidd_ffi_c.so (loaded with dlopen, prototypes declared by hand): manager_new/ref/unref, add_vars, set_var_order, var/level maps, gc, constants, var/not_var, all connectives, ite, restrict, quantifiers and apply-quantify, substitution objects (new/add_pair/substitute twice/free), cofactors, ref/unref, node_count/level/var, satisfiable/valid, sat_count_double, pick_cube(+assignment_free)/pick_cube_dd/pick_cube_dd_set, eval, containing_manager, variable names through C (set_var_name incl. NULL/empty/duplicate/non-ASCII names, var_name with free(), name_to_var, num_named_vars against a Vec<String> model), DDDMP round trips through C (manager_export_dddmp with NULL settings/names/error -> oxidd_dddmp_open/num_roots/num_vars -> manager_import_dddmp into the same manager: the imported handles must be the exported ones and are owned by the caller), ZBDD singleton/base/empty/subset0/subset1/change/union/intsec/diff/make_node (which consumes hi and lo - also when var, hi or lo is the invalid handle), and calls with the invalid handle at every operand position. Oracle: the harness keeps a ledger of the handles it owns with their truth tables (model = what the Rust API yields by C02-C04/C09): every returned handle must evaluate (oxidd_*_eval on all assignments) to the model table and have the reference node count; an invalid operand must give an invalid result; after every gc the manager must hold exactly the inner nodes of the shared reduced diagram of the owned tables (a leaked reference shows up as a surplus, an over-release as a deficit or crash); at the end every owned handle is unref'ed once and the manager must be back at its baseline. Each sequence runs in a forked child (a segfault/abort is a verdict). Non-trivial = sequence with a result whose operands stay owned, at least one invalid-handle call and at least one gc balance check.",
             assumptions: vec!["manager handle balance (strong count) is not observable through the public C API and is not checked".into(), "C++/Python layers are not built here (no CMake/pytest offline)".into(), "DDDMP/DOT export through the C API is not driven".into()],
             extra: json!({"library": lib_path()}),
         },
